@@ -2090,7 +2090,7 @@ use crate::{
     events::{BytesCData, BytesEnd, BytesStart, BytesText, Event},
     name::QName,
     reader::NsReader,
-    utils::CowRef,
+    utils::{trim_xml_end, CowRef},
 };
 use serde::de::{
     self, Deserialize, DeserializeOwned, DeserializeSeed, IntoDeserializer, SeqAccess, Visitor,
@@ -2304,27 +2304,51 @@ impl<'i, R: XmlRead<'i>, E: EntityResolver> XmlReader<'i, R, E> {
     ///
     /// [`Text`]: PayloadEvent::Text
     /// [`CData`]: PayloadEvent::CData
-    fn drain_text(&mut self, mut result: Cow<'i, str>) -> Result<DeEvent<'i>, DeError> {
+    ///
+    /// `keep` is the length of the beginning of `result` that is not subject to
+    /// trimming: everything up to the end of the last CDATA section or up to the
+    /// last non-whitespace character of the last text piece. The trailing
+    /// whitespace of the whole run is trimmed, even when it is split into several
+    /// text pieces by comments or processing instructions.
+    fn drain_text(
+        &mut self,
+        mut result: Cow<'i, str>,
+        mut keep: usize,
+    ) -> Result<DeEvent<'i>, DeError> {
         loop {
             if self.current_event_is_last_text() {
                 break;
             }
 
             match self.next_impl()? {
-                PayloadEvent::Text(mut e) => {
-                    if self.current_event_is_last_text() {
-                        // FIXME: Actually, we should trim after decoding text, but now we trim before
-                        e.inplace_trim_end();
-                    }
+                PayloadEvent::Text(e) => {
+                    // FIXME: Actually, we should trim after decoding text, but now we trim before
+                    let trailing = e.len() - trim_xml_end(&e).len();
+                    let blank = trailing == e.len();
                     result
                         .to_mut()
                         .push_str(&e.unescape_with(|entity| self.entity_resolver.resolve(entity))?);
+                    if !blank {
+                        keep = result.len() - trailing;
+                    }
                 }
-                PayloadEvent::CData(e) => result.to_mut().push_str(&e.decode()?),
+                PayloadEvent::CData(e) => {
+                    result.to_mut().push_str(&e.decode()?);
+                    keep = result.len();
+                }
 
                 // SAFETY: current_event_is_last_text checks that event is Text or CData
                 _ => unreachable!("Only `Text` and `CData` events can come here"),
             }
+        }
+        if keep < result.len() {
+            result = match result {
+                Cow::Borrowed(s) => Cow::Borrowed(&s[..keep]),
+                Cow::Owned(mut s) => {
+                    s.truncate(keep);
+                    Cow::Owned(s)
+                }
+            };
         }
         Ok(DeEvent::Text(Text { text: result }))
     }
@@ -2340,9 +2364,16 @@ impl<'i, R: XmlRead<'i>, E: EntityResolver> XmlReader<'i, R, E> {
                         // FIXME: Actually, we should trim after decoding text, but now we trim before
                         continue;
                     }
-                    self.drain_text(e.unescape_with(|entity| self.entity_resolver.resolve(entity))?)
+                    let trailing = e.len() - trim_xml_end(&e).len();
+                    let text = e.unescape_with(|entity| self.entity_resolver.resolve(entity))?;
+                    let keep = text.len() - trailing;
+                    self.drain_text(text, keep)
                 }
-                PayloadEvent::CData(e) => self.drain_text(e.decode()?),
+                PayloadEvent::CData(e) => {
+                    let text = e.decode()?;
+                    let keep = text.len();
+                    self.drain_text(text, keep)
+                }
                 PayloadEvent::DocType(e) => {
                     self.entity_resolver
                         .capture(e)
